@@ -1613,4 +1613,39 @@ example : (let σ := revert ipx (runT ipx (backupOp σt 0)
            σ.flows.map (fun f => (f.id, content σ f == content σt (σt.flows.headD f), modified σ f))) =
     [(7, true, false), (8, false, true)] := by decide
 
+
+-- ---------------------------------------------------------------- round-6 audit witnesses
+-- `revert_twice` / `not_modified_after_revert` / `revert_without_backup_noop`: a flow WITH a backup and edits
+private def σb : Store Nat := run ipx (backupOp σ0 0) [.mutate 0 1 21, .rebind 0 2 31]
+example : (σb.flows.map (fun f => (f.backup, modified σb f))) = [(some (7, [10, 20, 30]), true)] := by decide
+example : (let σ := revert ipx σb 0; σ.flows.map (fun f => (content σ f, f.backup, modified σ f))) =
+    [([10, 20, 30], none, false)] := by decide
+example : (let σ := revert ipx (revert ipx σb 0) 0; σ.flows.map (fun f => (content σ f, f.backup))) =
+    [([10, 20, 30], none)] := by decide
+-- `copy_then_edits_independent`, both directions on one history: edits of the original (in place and by assignment)
+-- and of the copy, a backup + revert of the copy; each side only shows its own edits, the copy has the fresh id
+example : (let σ := run ipx (copy σ0 0 8) [.mutate 0 0 11, .rebind 1 1 99, .backup 1, .mutate 1 2 98, .rebind 0 2 33, .revert 1]
+           σ.flows.map (fun f => (f.id, f.live, content σ f))) = [(7, true, [11, 20, 33]), (8, false, [10, 99, 30])] := by decide
+example : Sep (copy σ0 0 8) := sep_preserved ipx [.copy 0 8] σ0 (sep_newFlow _ _ _ _ (sep_empty 0))
+-- hypotheses of `copy_independent` on that store: flow 1 exists and a history that never addresses it
+example : (copy σ0 0 8).flows[1]?.isSome = true ∧
+    (∀ op ∈ ([.mutate 0 0 11, .backup 0, .revert 0, .copy 0 9] : List (Op Nat)), op.target ≠ 1) := by decide
+-- `hdrGet_set_self` / `hdrGet_set_other` / `hdrGet_del`: folding lookup after a case-insensitive assignment
+example : hdrGet (hdrSet m0.headers [0x48,0x4f,0x53,0x54] [0x7a]) [0x68,0x6f,0x73,0x74] = some [0x7a] ∧
+    hdrGet (hdrSet m0.headers [0x48,0x4f,0x53,0x54] [0x7a]) [0x78] = some [0x31] ∧
+    hdrGet m0.headers [0x68,0x6f,0x73,0x74] = some [0x61, 0x2c, 0x20, 0x62] ∧
+    hdrGet (hdrDel m0.headers [0x48,0x4f,0x53,0x54]) [0x68,0x6f,0x73,0x74] = none ∧
+    kconv [0x78] ≠ kconv [0x48,0x4f,0x53,0x54] := by decide
+-- `typed_copy_independent_reachable` / `typed_revert_restores_reachable`: a store reachable by a typed history
+-- (copy, then an edit of the copy) — the original is untouched; then backup/edit/revert of the copy restores it
+example : (let σ := runT ipx σt [.copy 0 8, .edit 1 (.req (.hset [0x78] [0x39])), .backup 1, .edit 1 (.metaSet 1 2),
+                                 .edit 1 (.respReplace (some m0)), .revert 1]
+           (σ.flows.map (fun f => (f.id, f.backup.isSome, modified σ f)),
+            content σ (σ.flows.headD (σt.flows.headD ⟨0, false, [], none⟩)) == content σt (σt.flows.headD ⟨0, false, [], none⟩)))
+    = ([(7, false, false), (8, false, false)], true) := by decide
+-- TOTALISATION, for the record: an edit addressed to an absent component object is a no-op in the model
+-- (`Edit.apply` falls through); the harness edit functions carry the same guards (`if f.response: …`)
+example : (Edit.resp (.atom 0 9)).apply (.resp none) = .resp none ∧ (Edit.errMsg 3).apply (.err none) = .err none ∧
+    (WsEdit.pop).apply ⟨[], [0]⟩ = ⟨[], [0]⟩ := by decide
+
 end MitmVerif.Props.C40
